@@ -262,9 +262,24 @@ class Evaluator:
                 k3 = z3.Int(fresh_name('k'))
                 st.assume(z3.ForAll([k3], z3.Implies(z3.And(k3 >= ca.length, k3 < n),
                                                      z3.And([r[k3] == x[k3 - ca.length] for r, x in zip(rc.leaves, cb.leaves)]))))
+        oa, ob = st.heap.origins.get(a.ref), st.heap.origins.get(b.ref)
+        on = None
+        if et is not None and (oa is not None or ca.etype is None) and (ob is not None or cb.etype is None) and (oa is not None or ob is not None):
+            # both parts are selections (of the same source, by construction of the caller's spec): positions keep their source index
+            on = z3.Array(fresh_name('origin'), z3.IntSort(), z3.IntSort())
+            q1, q2 = z3.Int(fresh_name('k')), z3.Int(fresh_name('k'))
+            if oa is not None:
+                st.assume(z3.ForAll([q1], z3.Implies(z3.And(q1 >= 0, q1 < ca.length), on[q1] == oa[q1])))
+            if ob is not None:
+                st.assume(z3.ForAll([q2], z3.Implies(z3.And(q2 >= ca.length, q2 < ca.length + cb.length), on[q2] == ob[q2 - ca.length])))
         if into is not None:
             st.heap.lists[into.ref] = st.heap.lists[res.ref]
+            st.heap.origins.pop(into.ref, None)
+            if on is not None:
+                st.heap.origins[into.ref] = on
             return into
+        if on is not None:
+            st.heap.origins[res.ref] = on
         return res
 
     def list_slice(self, lv, sl, st, node):
@@ -748,7 +763,7 @@ class Evaluator:
             m = self.resolve_elem_attr(base, attr, st)
             if m is not None:
                 return m
-            if attr in ('name', 'stem', 'parent', 'suffix'):
+            if attr in ('name', 'stem', 'parent', 'suffix', '__class__', '__name__', '__qualname__'):
                 f_ = z3.Function('path_' + attr, Elem, Elem)
                 return VElem(f_(base.t))
         if isinstance(base, VList) and base.nd and attr == 'shape' and base.width is not None:
@@ -910,7 +925,9 @@ class Evaluator:
             return res
         res, m = st.heap.fresh_list(et, 'comp')
         rc = st.heap.lists[res.ref]
-        sel = z3.Function(fresh_name('sel'), z3.IntSort(), z3.IntSort())
+        O = z3.Array(fresh_name('origin'), z3.IntSort(), z3.IntSort())
+        st.heap.origins[res.ref] = O
+        sel = lambda t_: O[t_]
         inv = z3.Function(fresh_name('inv'), z3.IntSort(), z3.IntSort())
         j, j2 = z3.Int(fresh_name('cj')), z3.Int(fresh_name('cj'))
         st.assume(z3.And(m >= 0, m <= n))
